@@ -136,6 +136,25 @@ Inductive ploc :=
 | PLSignOut (slug uri ts : str) (sig_ok : bool)
 | PLOther (loc : str).
 
+(* what the generator knows about the lineage of a presented proxy cookie — every field is an OBSERVATION it made
+   at an earlier step of this history (never an expectation), joined by its own jar bookkeeping *)
+Record chain := {
+  ch_login_now : Z;          (* instant of the proxy login callback the presented cookie descends from *)
+  ch_login_host : str;       (* Host of that callback *)
+  ch_login_email : str;      (* e-mail of the session it saved (Set-Cookie opened with the proxy's key) *)
+  ch_login_redeem : bool;    (* the authenticator received a /redeem call during it *)
+  ch_code_now : Z;           (* instant of the authenticator /sign_in that minted the redeemed code *)
+  ch_code_email : str;       (* e-mail inside that code (Location's code parameter opened with the auth-code key) *)
+  ch_code_uri : str;         (* redirect_uri that /sign_in request presented *)
+  ch_sig_ok : bool;          (* its (redirect_uri, sig, ts) are those of a redirect the PROXY issued earlier, unchanged,
+                                and the sig verifies under the proxy's secret *)
+  ch_vouch_now : Z;          (* instant of the IdP login (authenticator /callback) the authenticator session descends from *)
+  ch_vouch_email : str;      (* e-mail of the session that callback set *)
+  ch_vouch_called : bool;    (* the IdP received the code exchange during it *)
+  ch_revoked : option Z      (* instant the grant was revoked: by the IdP's operator, or by a sign-out the IdP confirmed
+                                (revoke call observed, cookie cleared, 302) *)
+}.
+
 Record pobs := {
   op_status : N;
   op_seen : list bseen;
@@ -145,8 +164,9 @@ Record pobs := {
   op_idp : list A.call;           (* requests the identity provider received, in order *)
   (* the generator's bookkeeping about what it presented *)
   op_pres : option PC.session;    (* the presented session cookie, as opened when it was received (virtual clock) *)
-  op_root : option nat;           (* step of the proxy login callback the presented cookie descends from *)
-  op_code_from : option nat       (* callback: step of the authenticator /sign_in that minted the presented code *)
+  op_chain : option chain;        (* its lineage *)
+  op_outs : list Z                (* instants of proxy requests (this one included) during which the generator kept the
+                                     authenticator or the IdP unavailable *)
 }.
 
 Inductive aloc :=
@@ -163,10 +183,10 @@ Record aobs := {
   oa_calls : list A.call;         (* what the fake IdP received *)
   oa_json : option B.body;        (* a JSON document in the body, decoded *)
   (* bookkeeping *)
-  oa_route : N;                   (* where the generator aimed: 1 start 2 sign_in 3 sign_out 4 callback 5.. back channel, 0 other *)
+  oa_route : N;                   (* the route the request addresses: 1 start 2 sign_in 3 sign_out 4 callback 5 back channel, 0 other *)
   oa_pres : option F.session;     (* the presented session cookie of this provider, as opened *)
-  oa_root : option nat;           (* step of the IdP login (callback) the presented cookie descends from *)
-  oa_sig_from : option nat        (* step of the proxy redirect whose signature, URI and time stamp are presented unchanged *)
+  oa_uri : str;                   (* the redirect_uri the request presented *)
+  oa_revoked : option Z           (* instant the presented cookie's grant was revoked, if it was *)
 }.
 
 Inductive sobs := ONone | OP (o : pobs) | OA (o : aobs).
@@ -335,252 +355,158 @@ Definition diag (c : case) : list bool := map (fun so => negb (step_agree (cs_sd
 (* ------------------------------------------------------------------------------------------ *)
 (* the system property on the observed trace *)
 
+(* One monitored step: the instant, where the request went, what was observed. Both an observed history and a
+   history of the model map to a list of these ([msteps_of_case], [model_msteps]). *)
+Inductive mkind := MIdp | MProxy (host path : str) | MAuth.
+Record mstep := { ms_now : Z; ms_kind : mkind; ms_obs : sobs }.
+
 Section Monitor.
 Variable re_match : str -> str -> bool.
+Variable re_replace : str -> str -> str -> str.
 Variable lower : str -> str.
 Variable sd : sysdep.
 
 Definition d_p := sd_p sd.
 Definition d_a := sd_a sd.
 
-Definition route_of (h : str) : option P.iupstream := Corr_IntProxy.exp_route re_match (P.dp_ups d_p) h.
+Definition route_of (h : str) : option P.iupstream := P.route_ext re_match (P.dp_ups d_p) h.
 
-Definition is_callback_path (e : sevent) : bool :=
-  match e with SProxy q _ => str_eqb (sq_path q) P.p_callback | _ => false end.
-
-Definition skip_path (e : sevent) : bool :=
-  match e with
-  | SProxy q _ => match route_of (sq_host q) with
-                  | Some u => existsb (fun p => re_match p (sq_path q)) (Hostmux.u_skip (P.up_hm u))
-                  | None => false end
-  | _ => false
+Definition skip_path (host path : str) : bool :=
+  match route_of host with
+  | Some u => existsb (fun p => re_match p path) (Hostmux.u_skip (P.up_hm u))
+  | None => false
   end.
-
-(* the observation of step j *)
-Definition pobs_at (steps : list sstep) (j : nat) : option (sstep * pobs) :=
-  match nth_error steps j with Some s => match sp_obs s with OP o => Some (s, o) | _ => None end | None => None end.
-Definition aobs_at (steps : list sstep) (j : nat) : option (sstep * aobs) :=
-  match nth_error steps j with Some s => match sp_obs s with OA o => Some (s, o) | _ => None end | None => None end.
 
 Definition in_domain_uri (u : str) : bool := Corr_C07.rfc_in_domain u (A.d_proxy_domains d_a).
 
-(* an observed IdP login: a callback that set a session, the IdP having been asked to exchange a code *)
-Definition login_email (o : aobs) : option str :=
-  match oa_route o, oa_sess o with
-  | 4%N, [F.OpSet s] =>
-      if existsb (fun c => match c with A.CIdp (F.CallRedeem _) => true | _ => false end) (oa_calls o)
-      then Some (F.s_email s) else None
-  | _, _ => None
+Definition creds_agree : bool :=
+  str_eqb (sd_pid sd) (A.d_client_id d_a) && str_eqb (sd_psecret sd) (A.d_client_secret d_a).
+
+Definition slack : Z := 3.
+
+(* SYS_revocation_propagates on one served request. [strict]: the clause at full strength (refuted: finding K2);
+   otherwise the proved one, which admits a proxy login AFTER the revocation (a code minted before it). *)
+Definition revocation_ok (strict : bool) (now V : Z) (ch : chain) (outs : list Z) : bool :=
+  match ch_revoked ch with
+  | None => true
+  | Some t =>
+      (now <=? t + V + slack) ||
+      (negb strict && (t <? ch_login_now ch + slack) && (now <=? ch_login_now ch + V + slack)) ||
+      existsb (fun t' => (t - slack <? t') && (t' <=? now) && (now <=? t' + V + slack)) outs
   end.
 
-(* the chain behind an identity the backend saw:
-   proxy login callback j0 (redeem call made, session saved for e on this host, e admitted by the routed
-   upstream's login gate) <- authenticator /sign_in step j1 (code for a session of e, handed to a Location
-   in a configured root domain, the request carrying unchanged a signature the proxy issued for exactly
-   that callback address) <- IdP login step j2 (code exchange at the IdP, session for e) *)
-Definition chain_ok (steps : list sstep) (k : nat) (host e : str) (now : Z) (pres : PC.session) (root : option nat) : bool :=
-  match root with
+(* SYS_identity_vouched / SYS_no_cross_talk on one backend receipt. [strict]: with "the code was handed to THIS
+   Host's callback" (refuted: finding K1). *)
+Definition identity_ok (strict : bool) (now : Z) (host path : str) (o : pobs) (b : bseen) : bool :=
+  match route_of host with
   | None => false
-  | Some j0 =>
-      Nat.ltb j0 k &&
-      match pobs_at steps j0 with
-      | Some (s0, o0) =>
-          is_callback_path (sp_ev s0) && str_eqb (host_of (sp_ev s0)) host &&
-          existsb (pcall_eqb P.CRedeem) (op_calls o0) &&
-          match op_eff o0 with
-          | PC.CSaved sv => str_eqb (PC.s_email sv) e && str_eqb (PC.s_upstream sv) host &&
-                            close (PC.s_lifetime_dl sv) (PC.s_lifetime_dl pres)
-          | _ => false
-          end &&
-          (* the proxy and the authenticator agree on the client credentials *)
-          str_eqb (sd_pid sd) (A.d_client_id d_a) && str_eqb (sd_psecret sd) (A.d_client_secret d_a) &&
-          match route_of host with
-          | Some u =>
-              (* C11: the login gate of THAT upstream admits e (under the most favourable group answer) *)
-              let pol := Hostmux.u_policy (P.up_hm u) in
-              login_gate lower pol e (GroupsOk (p_groups pol))
-          | None => false
-          end &&
-          match op_code_from o0 with
-          | None => false
-          | Some j1 =>
-              Nat.ltb j1 j0 &&
-              match aobs_at steps j1 with
-              | Some (s1, o1) =>
-                  N.eqb (oa_route o1) 2 &&
-                  match oa_loc o1 with
-                  | ALCode head (Some cs) _ => str_eqb (F.s_email cs) e && in_domain_uri head
-                  | _ => false
-                  end &&
-                  match oa_sig_from o1 with
-                  | Some j3 =>
-                      Nat.ltb j3 j1 &&
-                      match pobs_at steps j3 with
-                      | Some (s3, o3) =>
-                          match op_loc o3 with
-                          | PLSignIn _ uri _ ok => ok && str_eqb uri (callback_uri sd host)
-                          | _ => false
-                          end
-                      | None => false
-                      end
-                  | None => false
-                  end &&
-                  match oa_root o1 with
-                  | Some j2 =>
-                      Nat.leb j2 j1 &&
-                      match aobs_at steps j2 with
-                      | Some (_, o2) => option_eqb str_eqb (login_email o2) (Some e)
-                      | None => false
-                      end
-                  | None => false
-                  end
-              | None => false
-              end
-          end
-      | None => false
-      end
-  end.
-
-(* SYS_identity_vouched / SYS_no_cross_talk on one observed proxy step *)
-Definition identity_holds (steps : list sstep) (k : nat) (s : sstep) (o : pobs) : bool :=
-  let host := host_of (sp_ev s) in
-  forallb (fun b =>
-    (* C13: the backend of the upstream this Host routes to *)
-    match route_of host with
-    | Some u => str_eqb (b_target b) (Corr_IntProxy.exp_target (fun _ _ t => t) host u) ||
-                match Hostmux.u_route (P.up_hm u) with Hostmux.Rewrite _ _ => true | _ => false end
-    | None => false
-    end &&
-    negb (b_sess_cookie b) &&
-    if skip_path (sp_ev s) then nilb (b_email b) && nilb (b_user b) && nilb (b_groups b)
-    else
-      match b_email b, op_pres o with
-      | [e], Some pres =>
-          str_eqb (PC.s_email pres) e && str_eqb (PC.s_upstream pres) host && (sp_now s <=? PC.s_lifetime_dl pres + 3) &&
-          chain_ok steps k host e (sp_now s) pres (op_root o)
-      | _, _ => false
-      end) (op_seen o).
-
-(* the instants at which the grant behind IdP login j2 was revoked: by the IdP's operator, or through a
-   sign-out the IdP confirmed *)
-Definition grant_no (steps : list sstep) (j2 : nat) : nat :=
-  length (filter (fun s => match sp_obs s with OA o => match login_email o with Some _ => true | None => false end | _ => false end)
-                 (firstn j2 steps)).
-
-Definition revoke_confirmed (o : aobs) : bool :=
-  existsb (fun c => match c with A.CRevoke _ => true | _ => false end) (oa_calls o) &&
-  existsb (fun op => match op with F.OpClear => true | _ => false end) (oa_sess o) && N.eqb (oa_status o) 302.
-
-Definition revoked_at (steps : list sstep) (j2 : nat) (s : sstep) : bool :=
-  match sp_ev s, sp_obs s with
-  | SIdp (IRevoke g), _ => Nat.eqb g (grant_no steps j2)
-  | SAuth _ _, OA o => revoke_confirmed o && option_eqb Nat.eqb (oa_root o) (Some j2)
-  | _, _ => false
-  end.
-
-Definition revocation_time (steps : list sstep) (k j2 : nat) : option Z :=
-  match filter (revoked_at steps j2) (firstn k steps) with
-  | s :: _ => Some (sp_now s)
-  | [] => None
-  end.
-
-(* was the authenticator or the IdP unavailable during some proxy request in (t, now]? *)
-Definition idp_down_at (steps : list sstep) (k : nat) : bool :=
-  match rev (filter (fun s => match sp_ev s with SIdp (IDown _) => true | _ => false end) (firstn k steps)) with
-  | s :: _ => match sp_ev s with SIdp (IDown b) => b | _ => false end
-  | [] => false
-  end.
-Definition outage_between (steps : list sstep) (k : nat) (t now V : Z) : bool :=
-  existsb (fun js =>
-    let '(j, s) := js in
-    match sp_ev s with
-    | SProxy q _ => (t <? sp_now s) && (sp_now s <=? now) && (now <=? sp_now s + V + 3) &&
-                    (match sq_link q with LinkUp => idp_down_at steps j | _ => true end)
-    | _ => false
-    end) (combine (seq 0 (S k)) (firstn (S k) steps)).
-
-(* the IdP login behind a proxy login *)
-Definition idp_login_of (steps : list sstep) (j0 : nat) : option nat :=
-  match pobs_at steps j0 with
-  | Some (_, o0) => match op_code_from o0 with
-                    | Some j1 => match aobs_at steps j1 with Some (_, o1) => oa_root o1 | None => None end
-                    | None => None end
-  | None => None
-  end.
-
-(* SYS_revocation_propagates / SYS_signout_propagates on one observed proxy step: a request served with
-   identity after the grant behind it was revoked at t is served at most V later — unless the proxy login
-   itself happened after t (a code minted before the revocation and redeemed after it: the refuted clause),
-   in which case at most V after that login — or the authenticator / IdP was unavailable in between *)
-Definition revocation_holds (steps : list sstep) (k : nat) (s : sstep) (o : pobs) : bool :=
-  let V := P.dp_V d_p in
-  if skip_path (sp_ev s) then true
-  else
-  forallb (fun b =>
-    match op_root o with
-    | None => true
-    | Some j0 =>
-        match idp_login_of steps j0 with
-        | None => true
-        | Some j2 =>
-            match revocation_time steps k j2 with
-            | None => true
-            | Some t =>
-                let login := match nth_error steps j0 with Some s0 => sp_now s0 | None => 0 end in
-                (sp_now s <=? Z.max t login + V + 3) || outage_between steps k t (sp_now s) V
-            end
+  | Some u =>
+      (* C13: the backend of the upstream this Host routes to; never the session cookie *)
+      str_eqb (b_target b) (Hostmux.target re_replace host (P.up_hm u)) && negb (b_sess_cookie b) &&
+      if skip_path host path then nilb (b_email b) && nilb (b_user b) && nilb (b_groups b)
+      else
+        match b_email b, op_pres o, op_chain o with
+        | [e], Some pres, Some ch =>
+            (* the presented cookie: for e, bound to this Host, within its lifetime, lifetime = login + L *)
+            str_eqb (PC.s_email pres) e && str_eqb (PC.s_upstream pres) host &&
+            (now <=? PC.s_lifetime_dl pres + slack) && close (ch_login_now ch + P.dp_L d_p) (PC.s_lifetime_dl pres) &&
+            (* the login: on this Host, for e, a redeem call, both services agreeing on the client credentials *)
+            str_eqb (ch_login_host ch) host && str_eqb (ch_login_email ch) e && ch_login_redeem ch &&
+            (ch_login_now ch <=? now) && creds_agree &&
+            (* C11: THIS upstream's login gate admits e (under the most favourable group answer) *)
+            login_gate lower (Hostmux.u_policy (P.up_hm u)) e (GroupsOk (p_groups (Hostmux.u_policy (P.up_hm u)))) &&
+            (* the code: for e, minted earlier, for a redirect_uri in a configured root domain, signed by the proxy *)
+            str_eqb (ch_code_email ch) e && (ch_code_now ch <=? ch_login_now ch + slack) &&
+            in_domain_uri (ch_code_uri ch) && ch_sig_ok ch &&
+            (negb strict || str_eqb (ch_code_uri ch) (callback_uri sd host)) &&
+            (* the IdP login: for e, earlier, the IdP asked *)
+            str_eqb (ch_vouch_email ch) e && ch_vouch_called ch && (ch_vouch_now ch <=? ch_code_now ch + slack) &&
+            revocation_ok strict now (P.dp_V d_p) ch (op_outs o)
+        | _, _, _ => false
         end
-    end) (op_seen o).
+  end.
 
-Definition proxy_step_holds (steps : list sstep) (k : nat) (s : sstep) (o : pobs) : bool :=
-  identity_holds steps k s o && revocation_holds steps k s o &&
-  (* a session is handed out by a callback only when both services agree on the client credentials *)
+Definition proxy_ok (strict : bool) (now : Z) (host path : str) (o : pobs) : bool :=
+  forallb (identity_ok strict now host path o) (op_seen o) &&
+  (* a session is handed out by a callback only when both services agree on the client credentials, bound to this Host *)
   (match op_eff o with
-   | PC.CSaved sv => negb (is_callback_path (sp_ev s)) ||
-                     (str_eqb (sd_pid sd) (A.d_client_id d_a) && str_eqb (sd_psecret sd) (A.d_client_secret d_a) &&
-                      str_eqb (PC.s_upstream sv) (host_of (sp_ev s)))
+   | PC.CSaved sv => negb (str_eqb path P.p_callback) || (creds_agree && str_eqb (PC.s_upstream sv) host)
    | _ => true
    end).
 
-(* the authenticator side: a code only for a live provider-confirmed session, to an in-domain Location;
-   a JSON document only to a caller on a back-channel route *)
-Definition auth_step_holds (steps : list sstep) (k : nat) (s : sstep) (o : aobs) : bool :=
+Definition is_redeem_call (c : A.call) : bool := match c with A.CIdp (F.CallRedeem _) => true | _ => false end.
+
+(* the authenticator side of one step *)
+Definition auth_ok (now : Z) (o : aobs) : bool :=
+  (* a code: only from /sign_in, for the presented live session, confirmed by the IdP in this very request, for a
+     redirect_uri in a configured root domain, and never for a revoked grant *)
   match oa_loc o with
   | ALCode head code _ =>
-      N.eqb (oa_route o) 2 && in_domain_uri head &&
+      N.eqb (oa_route o) 2 && in_domain_uri (oa_uri o) &&
       match code, oa_pres o with
-      | Some cs, Some ps => str_eqb (F.s_email cs) (F.s_email ps) && (sp_now s <=? F.s_lifetime ps + 3) &&
-                            negb (nilb (oa_calls o))
+      | Some cs, Some ps => str_eqb (F.s_email cs) (F.s_email ps) && (now <=? F.s_lifetime ps + slack) && negb (nilb (oa_calls o))
       | _, _ => false
       end &&
-      (* not for a revoked grant (IdP up) *)
-      match oa_root o with
-      | Some j2 => match revocation_time steps k j2 with Some _ => idp_down_at steps k | None => true end
-      | None => false
-      end
+      match oa_revoked o with None => true | Some _ => false end
   | _ => true
   end &&
-  match oa_json o with Some _ => N.leb 5 (oa_route o) | None => true end.
+  (* a session cookie: set by /callback after the IdP exchanged a code, or by /sign_in as a re-save of the presented one *)
+  forallb (fun op => match op with
+                     | F.OpClear => true
+                     | F.OpSet s =>
+                         (N.eqb (oa_route o) 4 && existsb is_redeem_call (oa_calls o) &&
+                          close (now + A.d_lifetime d_a) (F.s_lifetime s)) ||
+                         (N.eqb (oa_route o) 2 &&
+                          match oa_pres o with
+                          | Some ps => str_eqb (F.s_email s) (F.s_email ps) && close (F.s_lifetime ps) (F.s_lifetime s)
+                          | None => false
+                          end)
+                     end) (oa_sess o) &&
+  (* a token document only on a back-channel route *)
+  match oa_json o with Some _ => N.eqb (oa_route o) 5 | None => true end.
 
-Definition step_holds (steps : list sstep) (ks : nat * sstep) : bool :=
-  let '(k, s) := ks in
-  match sp_obs s with
-  | ONone => true
-  | OP o => proxy_step_holds steps k s o
-  | OA o => auth_step_holds steps k s o
+Definition mstep_ok (strict : bool) (m : mstep) : bool :=
+  match ms_kind m, ms_obs m with
+  | MProxy host path, OP o => proxy_ok strict (ms_now m) host path o
+  | MAuth, OA o => auth_ok (ms_now m) o
+  | MIdp, ONone => true
+  | _, _ => false
   end.
 
-Definition holds (steps : list sstep) : bool :=
-  forallb (step_holds steps) (combine (seq 0 (length steps)) steps).
+Definition holds_gen (strict : bool) (ms : list mstep) : bool := forallb (mstep_ok strict) ms.
 
 End Monitor.
 
-Definition known (c : case) : N := 0%N.
+Definition mkind_of (e : sevent) : mkind :=
+  match e with SIdp _ => MIdp | SProxy q _ => MProxy (sq_host q) (sq_path q) | SAuth _ _ => MAuth end.
+Definition msteps_of_case (c : case) : list mstep :=
+  map (fun s => {| ms_now := sp_now s; ms_kind := mkind_of (sp_ev s); ms_obs := sp_obs s |}) (cs_steps c).
 
-Definition judge (c : case) : N :=
-  code (mismatch c)
-       (holds (tab_match (cs_match c)) (lower_tab (cs_lower c)) (cs_sd c) (cs_steps c))
-       (known c).
+Definition holds_case (strict : bool) (c : case) : bool :=
+  holds_gen (tab_match (cs_match c)) (tab_replace (cs_replace c)) (lower_tab (cs_lower c)) (cs_sd c) strict (msteps_of_case c).
+
+(* the property at full strength *)
+Definition holds (c : case) : bool := holds_case true c.
+
+(* known findings: the observation satisfies everything that is PROVED of the model (holds_case false) and fails only
+   the clause whose refutation is a theorem:
+     41 = IntSystem-K1  a code handed to one Host's callback was redeemed by another Host's callback
+     42 = IntSystem-K2  a code minted before the grant was revoked was redeemed after it *)
+Definition cross_host_step (sd : sysdep) (m : mstep) : bool :=
+  match ms_kind m, ms_obs m with
+  | MProxy host _, OP o =>
+      match op_chain o with
+      | Some ch => negb (nilb (op_seen o)) && negb (str_eqb (ch_code_uri ch) (callback_uri sd host))
+      | None => false
+      end
+  | _, _ => false
+  end.
+Definition known (c : case) : N :=
+  if holds_case false c then
+    if existsb (cross_host_step (cs_sd c)) (msteps_of_case c) then 41%N else 42%N
+  else 0%N.
+
+Definition judge (c : case) : N := code (mismatch c) (holds c) (known c).
 
 (* classes: 1000 * (#proxy steps that reached a backend with identity, capped) + 100 * (#logins at the IdP, capped)
    + 10 * (revocation / sign-out / outage present) + length class *)
@@ -589,10 +515,10 @@ Definition cap (n m : nat) : N := N.of_nat (Nat.min n m).
 Definition classify (c : case) : N :=
   let steps := cs_steps c in
   let served := count (fun s => match sp_obs s with OP o => negb (nilb (flat_map b_email (op_seen o))) | _ => false end) steps in
-  let logins := count (fun s => match sp_obs s with OA o => match login_email o with Some _ => true | None => false end | _ => false end) steps in
+  let logins := count (fun s => match sp_obs s with OA o => N.eqb (oa_route o) 4 && negb (nilb (oa_sess o)) | _ => false end) steps in
   let revs := count (fun s => match sp_ev s, sp_obs s with
                               | SIdp (IRevoke _), _ => true
-                              | _, OA o => revoke_confirmed o
+                              | _, OA o => existsb (fun c => match c with A.CRevoke _ => true | _ => false end) (oa_calls o)
                               | _, _ => false end) steps in
   let outs := count (fun s => match sp_ev s with
                               | SIdp (IDown true) => true
@@ -618,14 +544,19 @@ Definition mk_sauth (host path meth : str) (query : tmpl) (urlenc ct_err : bool)
      sa_query_bad := qbad |}.
 Definition mk_bseen (target : str) (email user groups : list str) (ck : bool) : bseen :=
   {| b_target := target; b_email := email; b_user := user; b_groups := groups; b_sess_cookie := ck |}.
+Definition mk_chain (login_now : Z) (login_host login_email : str) (login_redeem : bool) (code_now : Z) (code_email code_uri : str)
+    (sig_ok : bool) (vouch_now : Z) (vouch_email : str) (vouch_called : bool) (revoked : option Z) : chain :=
+  {| ch_login_now := login_now; ch_login_host := login_host; ch_login_email := login_email; ch_login_redeem := login_redeem;
+     ch_code_now := code_now; ch_code_email := code_email; ch_code_uri := code_uri; ch_sig_ok := sig_ok;
+     ch_vouch_now := vouch_now; ch_vouch_email := vouch_email; ch_vouch_called := vouch_called; ch_revoked := revoked |}.
 Definition mk_pobs (status : N) (seen : list bseen) (loc : ploc) (eff : PC.cookie_effect) (calls : list P.call)
-    (idp : list A.call) (pres : option PC.session) (root code_from : option nat) : pobs :=
+    (idp : list A.call) (pres : option PC.session) (ch : option chain) (outs : list Z) : pobs :=
   {| op_status := status; op_seen := seen; op_loc := loc; op_eff := eff; op_calls := calls; op_idp := idp;
-     op_pres := pres; op_root := root; op_code_from := code_from |}.
+     op_pres := pres; op_chain := ch; op_outs := outs |}.
 Definition mk_aobs (status : N) (loc : aloc) (sess : list F.cookie_op) (csrf : list F.set_cookie) (calls : list A.call)
-    (json : option B.body) (route : N) (pres : option F.session) (root sig_from : option nat) : aobs :=
+    (json : option B.body) (route : N) (pres : option F.session) (uri : str) (revoked : option Z) : aobs :=
   {| oa_status := status; oa_loc := loc; oa_sess := sess; oa_csrf := csrf; oa_calls := calls; oa_json := json;
-     oa_route := route; oa_pres := pres; oa_root := root; oa_sig_from := sig_from |}.
+     oa_route := route; oa_pres := pres; oa_uri := uri; oa_revoked := revoked |}.
 Definition mk_step (now : Z) (e : sevent) (o : sobs) : sstep := {| sp_now := now; sp_ev := e; sp_obs := o |}.
 Definition mk_case (sd : sysdep) (lo : list (str * str)) (m : list (str * str * bool)) (rp : list (str * str * str * str))
     (t0 : Z) (steps : list sstep) : case :=
